@@ -4,6 +4,7 @@ import (
 	"encoding/json"
 	"fmt"
 	"os"
+	"runtime"
 	"strings"
 	"sync"
 	"sync/atomic"
@@ -41,6 +42,7 @@ type c17Conn struct {
 	unannounced bool       // built without a discovery reply (state sparse): requests of such a peer are outside C17
 	notifyMc    atomic.Uint64
 	reqMc       atomic.Uint64
+	reqMc2      atomic.Uint64 // latest request of the client feature of entity [2] to this peer
 }
 
 // c17Mute is a connection WITHOUT a writer (DeviceLocal.SetupRemoteDevice(ski, nil)): every datagram the stack wants
@@ -63,6 +65,7 @@ type c17W struct {
 	dd     api.FeatureLocalInterface // [1]/3 DeviceDiagnosis server with heartbeat
 	meas2  api.FeatureLocalInterface // [2]/1 Measurement client
 	dd2    api.FeatureLocalInterface // [2]/2 DeviceDiagnosis server without heartbeat function
+	lc2    api.FeatureLocalInterface // [2]/3 LoadControl server, writable, bound by peer 1 (and, in turn, by a peer without writer)
 	conns  []*c17Conn
 	mutes  [2]c17Mute
 	ent1   [3]api.EntityRemoteInterface // entity [1] of each connection as found when the world was built
@@ -76,6 +79,10 @@ type c17W struct {
 	nApproval atomic.Int64
 	nResult   atomic.Int64
 	cbRuns    atomic.Int64
+	cbIn      [c17CbKinds]atomic.Int64        // callbacks of this world the stack started on its own goroutines: entered ...
+	cbOut     [c17CbKinds]atomic.Int64        // ... and returned, per kind (settle: entered but never returned = stuck)
+	keptOp    [2]atomic.Pointer[any]          // the last copy each duellist got from DataCopy (application-side retention)
+	keptCB    [c17CbKinds]atomic.Pointer[any] // the last payload handed to a callback of each kind
 	uniq      atomic.Uint64
 	hbStart   atomic.Int64
 	soakMode  atomic.Int32 // verdict policy of the soak approval callback
@@ -90,7 +97,7 @@ func c17Feats() []rig.FS {
 		{Ent: []uint{1}, Id: 1, Typ: model.FeatureTypeTypeLoadControl, Role: model.RoleTypeClient, Desc: "lc client"},
 		{Ent: []uint{1}, Id: 2, Typ: model.FeatureTypeTypeMeasurement, Role: model.RoleTypeServer, Fns: []model.FunctionPropertyType{rig.FnProp(model.FunctionTypeMeasurementListData, true, false)}},
 		{Ent: []uint{1}, Id: 3, Typ: model.FeatureTypeTypeDeviceDiagnosis, Role: model.RoleTypeClient},
-		{Ent: []uint{2}, Id: 1, Typ: model.FeatureTypeTypeMeasurement, Role: model.RoleTypeServer},
+		{Ent: []uint{2}, Id: 1, Typ: model.FeatureTypeTypeMeasurement, Role: model.RoleTypeServer, Fns: []model.FunctionPropertyType{rig.FnProp(model.FunctionTypeMeasurementListData, true, false)}},
 	}
 }
 
@@ -172,6 +179,92 @@ func (cw *c17W) inNL(s int, cl model.CmdClassifierType, src, dst *model.FeatureA
 	return mc
 }
 
+// Kinds of application callbacks the stack runs on goroutines of its own (go cb(msg), go HandleEvent(payload)).
+const (
+	c17CbEvent = iota
+	c17CbApproval
+	c17CbResponse
+	c17CbKinds
+)
+
+var c17CbNames = [c17CbKinds]string{"event-handler", "approval", "response+result"}
+
+// cbEnter counts the entry of a callback and returns the function that counts its return: `defer cw.cbEnter(kind)()`.
+// "every API call completes" includes the calls an application makes from inside its callbacks: a callback that was
+// entered but has not returned when the case is over is stuck (settle).
+func (cw *c17W) cbEnter(kind int) func() {
+	cw.cbRuns.Add(1)
+	cw.cbIn[kind].Add(1)
+	return func() { cw.cbOut[kind].Add(1) }
+}
+
+// keep is what an application does with data the stack hands to it (DataCopy results, event payloads, response and
+// approval messages): it reads all of it (marshal) now, retains it and reads the value retained before once more, while
+// the stack goes on processing partial notifies, writes and updates of the same function. A pointer into the stack's
+// own cache handed out instead of a copy would make these reads race with the stack's in-place merges. The slot is an
+// atomic pointer: whoever swaps a value out owns it, so two harness goroutines never share one (several goroutines of
+// the soak use the same slot), and the swap orders only harness accesses, never the stack's.
+func (cw *c17W) keep(slot *atomic.Pointer[any], v any) {
+	if rig.IsNil(v) {
+		return
+	}
+	_ = rig.JS(v)
+	if old := slot.Swap(&v); old != nil {
+		_ = rig.JS(*old)
+	}
+	cw.c.Count("app_reads", 2)
+}
+
+// keepMsg: an approval callback reads the write it has to decide (command, filters, header) and retains it.
+func (cw *c17W) keepMsg(m *api.Message) {
+	if m == nil {
+		return
+	}
+	cw.keep(&cw.keptCB[c17CbApproval], []any{m.Cmd, m.RequestHeader, m.FilterPartial, m.FilterDelete})
+}
+
+// settle is called after the teardown of the world: every callback that was entered must return. The wait is a
+// watchdog only; on expiry the case is handed to the parent's goroutine dump like an operation that does not return
+// (violation hang@<frame> only if a goroutine is parked inside spine-go, otherwise inconclusive).
+func (cw *c17W) settle(what string) {
+	open := func() (n int64, txt string) {
+		for k := 0; k < c17CbKinds; k++ {
+			out := cw.cbOut[k].Load() // read first: entered >= returned at any moment
+			if d := cw.cbIn[k].Load() - out; d > 0 {
+				n += d
+				txt += fmt.Sprintf(" %s:%d", c17CbNames[k], d)
+			}
+		}
+		return
+	}
+	if !rig.WaitFor(c17OpGuard, func() bool { n, _ := open(); return n == 0 }) {
+		_, txt := open()
+		c17Stuck(cw.c, "callbacks entered but not returned ("+strings.TrimSpace(txt)+") after "+what)
+	}
+	for k := 0; k < c17CbKinds; k++ {
+		out := cw.cbOut[k].Load() // read first (a handler of a late event may still come and go): entered >= returned in the evidence too
+		cw.c.Count("cb_entered:"+c17CbNames[k], cw.cbIn[k].Load())
+		cw.c.Count("cb_returned:"+c17CbNames[k], out)
+	}
+}
+
+// c17Quiet is called at the end of a case: all goroutines the case (and the stack on its behalf: callbacks, event
+// handlers, fired approval timers, heartbeat streams - all stopped by the teardown) started must be gone again.
+// rig.WaitQuiet compares runtime.NumGoroutine with the count at the start of the case; nothing of the stack
+// legitimately outlives the teardown (approval timers are time.AfterFunc timers: no goroutine until they fire, and a
+// fired one only takes the feature's callback mutex and sends one result; a stopped heartbeat stream leaves its
+// select at once). The wait is a generous watchdog; on expiry the case does not end, so that the parent's
+// quiet-period monitor takes the goroutine dump: violation hang@<frame> only if a goroutine has been parked inside
+// spine-go for a minute (a heartbeat stream parked forever on a leaked lock, a timer function or a callback that
+// never got its mutex), otherwise inconclusive. Never a verdict by wall clock.
+func c17Quiet(c *rig.Ctx, base int, what string) {
+	if rig.WaitQuiet(base, c17OpGuard) {
+		c.Count("quiet_at_end", 1)
+		return
+	}
+	c17Stuck(c, fmt.Sprintf("%d goroutine(s) more than at the start of the case are still alive after %s", runtime.NumGoroutine()-base, what))
+}
+
 // callback wrappers: application callbacks run on goroutines the stack spawns; a panic there must be loud.
 func (cw *c17W) guardCB(what string) {
 	if r := recover(); r != nil {
@@ -184,7 +277,8 @@ func (cw *c17W) ensurePushCB() {
 		cw.nApproval.Add(1)
 		_ = cw.lc.AddWriteApprovalCallback(func(m *api.Message) {
 			defer cw.guardCB("approval")
-			cw.cbRuns.Add(1)
+			defer cw.cbEnter(c17CbApproval)()
+			cw.keepMsg(m)
 			select {
 			case cw.pend <- m:
 			default:
@@ -241,7 +335,12 @@ func (h *c17Handler) HandleEvent(p api.EventPayload) {
 	if !strings.HasPrefix(p.Ski, h.cw.w.Tag) {
 		return
 	}
-	h.cw.cbRuns.Add(1)
+	defer h.cw.cbEnter(c17CbEvent)()
+	if p.Function != "" {
+		h.cw.keep(&h.cw.keptCB[c17CbEvent], p.Data) // the function data itself, as the handler got it, read now and once more later
+	} else {
+		_ = rig.JS(p.Data)
+	}
 	if p.Feature != nil && p.Function != "" {
 		_ = rig.JS(p.Feature.DataCopy(p.Function))
 	}
@@ -277,6 +376,9 @@ func (cw *c17W) populate(s int, send c17Send) {
 	if s == 0 {
 		call(model.CmdType{NodeManagementBindingRequestCall: spine.NewNodeManagementBindingRequestCallType(cw.pa(s, []uint{1}, 1), cw.lc.Address(), model.FeatureTypeTypeLoadControl)})
 	}
+	if s == 1 { // the second writer: peer 1 holds the binding of the writable server feature of entity [2]
+		call(model.CmdType{NodeManagementBindingRequestCall: spine.NewNodeManagementBindingRequestCallType(cw.pa(s, []uint{1}, 1), cw.lc2.Address(), model.FeatureTypeTypeLoadControl)})
+	}
 	call(model.CmdType{NodeManagementSubscriptionRequestCall: spine.NewNodeManagementSubscriptionRequestCallType(cw.pa(s, []uint{1}, 1), cw.lc.Address(), model.FeatureTypeTypeLoadControl)})
 	call(model.CmdType{NodeManagementSubscriptionRequestCall: spine.NewNodeManagementSubscriptionRequestCallType(cw.nm(s), rig.LNM, model.FeatureTypeTypeNodeManagement)})
 	if s != 1 {
@@ -292,11 +394,58 @@ func (cw *c17W) populate(s int, send c17Send) {
 			cn.reqMc.Store(uint64(*mc))
 		}
 	}
+	if f := cw.rf(s, []uint{2}, 1); f != nil {
+		if mc, err := cw.meas2.RequestRemoteData(model.FunctionTypeMeasurementListData, nil, nil, f); err == nil && mc != nil {
+			cn.reqMc2.Store(uint64(*mc))
+		}
+	}
 	a := cw.pa(s, []uint{1}, 2)
 	_, _ = cw.mcl.SubscribeToRemote(a)
 	_, _ = cw.mcl.BindToRemote(a)
 	_, _ = cw.meas2.SubscribeToRemote(cw.pa(s, []uint{2}, 1))
 	_, _ = cw.meas2.BindToRemote(cw.pa(s, []uint{2}, 1))
+}
+
+// rebind restores what the removal of the peer's entity [1] took away on connection s: the peer binds (peer 0) and
+// subscribes again, the local client feature subscribes and binds to the peer's server feature again.
+func (cw *c17W) rebind(s int, send c17Send) {
+	call := func(cmd model.CmdType) {
+		send(s, model.CmdClassifierTypeCall, cw.nm(s), rig.LNM, true, nil, cmd)
+	}
+	if s == 0 {
+		call(model.CmdType{NodeManagementBindingRequestCall: spine.NewNodeManagementBindingRequestCallType(cw.pa(s, []uint{1}, 1), cw.lc.Address(), model.FeatureTypeTypeLoadControl)})
+	}
+	if s == 1 {
+		call(model.CmdType{NodeManagementBindingRequestCall: spine.NewNodeManagementBindingRequestCallType(cw.pa(s, []uint{1}, 1), cw.lc2.Address(), model.FeatureTypeTypeLoadControl)})
+	}
+	call(model.CmdType{NodeManagementSubscriptionRequestCall: spine.NewNodeManagementSubscriptionRequestCallType(cw.pa(s, []uint{1}, 1), cw.lc.Address(), model.FeatureTypeTypeLoadControl)})
+	if s != 1 {
+		call(model.CmdType{NodeManagementSubscriptionRequestCall: spine.NewNodeManagementSubscriptionRequestCallType(cw.pa(s, []uint{1}, 3), cw.dd.Address(), model.FeatureTypeTypeDeviceDiagnosis)})
+	}
+	a := cw.pa(s, []uint{1}, 2)
+	_, _ = cw.mcl.SubscribeToRemote(a)
+	_, _ = cw.mcl.BindToRemote(a)
+}
+
+// autoVerdicts gives the second writable feature an approval callback whose verdict follows the message counter:
+// a third of the writes is approved, a third denied, a third left to the approval timer - for the writes of a peer
+// without writer each of the three ends in a result that can not be sent.
+func (cw *c17W) autoVerdicts(f api.FeatureLocalInterface, timeout time.Duration) {
+	f.SetWriteApprovalTimeout(timeout)
+	_ = f.AddWriteApprovalCallback(func(m *api.Message) {
+		defer cw.guardCB("approval")
+		defer cw.cbEnter(c17CbApproval)()
+		if m == nil || m.RequestHeader == nil || m.RequestHeader.MsgCounter == nil {
+			return
+		}
+		cw.keepMsg(m)
+		switch uint64(*m.RequestHeader.MsgCounter) % 3 {
+		case 0:
+			f.ApproveOrDenyWrite(m, model.ErrorType{})
+		case 1:
+			f.ApproveOrDenyWrite(m, model.ErrorType{ErrorNumber: 7})
+		}
+	})
 }
 
 func (cw *c17W) connect(i int) *c17Conn {
@@ -311,6 +460,7 @@ func (cw *c17W) connect(i int) *c17Conn {
 //
 //	0 rich:    everything announced, bound, subscribed, data present, requests outstanding
 //	1 busy:    rich + approval callbacks (auto verdict) with a short timeout + application event handlers calling back
+//	           + a subscribed connection without writer (mute 1)
 //	2 sparse:  peer 1 connected but not yet announced, no bindings/subscriptions/data
 //	3 churned: rich + full request and notify caches + peer 1 reconnected once + entity [2] removed and re-added
 func c17Build(c *rig.Ctx, tag string, state int, nconn int, soak bool) *c17W {
@@ -331,8 +481,11 @@ func c17Build(c *rig.Ctx, tag string, state int, nconn int, soak bool) *c17W {
 	cw.meas2 = cw.e2.GetOrAddFeature(model.FeatureTypeTypeMeasurement, model.RoleTypeClient)
 	cw.dd2 = cw.e2.GetOrAddFeature(model.FeatureTypeTypeDeviceDiagnosis, model.RoleTypeServer)
 	cw.dd2.AddFunctionType(model.FunctionTypeDeviceDiagnosisStateData, true, false)
+	cw.lc2 = cw.e2.GetOrAddFeature(model.FeatureTypeTypeLoadControl, model.RoleTypeServer)
+	cw.lc2.AddFunctionType(model.FunctionTypeLoadControlLimitListData, true, true)
 	if state != 2 {
 		cw.lc.SetData(model.FunctionTypeLoadControlLimitListData, c17Limits(0))
+		cw.lc2.SetData(model.FunctionTypeLoadControlLimitListData, c17Limits(50))
 		cw.e1.AddUseCaseSupport(model.UseCaseActorTypeCEM, model.UseCaseNameTypeLimitationOfPowerConsumption, "1.0.0", "", true, []model.UseCaseScenarioSupportType{1, 2})
 		cw.e2.AddUseCaseSupport(model.UseCaseActorTypeEV, model.UseCaseNameTypeEVStateOfCharge, "1.0.0", "", true, []model.UseCaseScenarioSupportType{1})
 	}
@@ -353,7 +506,8 @@ func c17Build(c *rig.Ctx, tag string, state int, nconn int, soak bool) *c17W {
 		cw.nApproval.Add(1)
 		_ = cw.lc.AddWriteApprovalCallback(func(m *api.Message) {
 			defer cw.guardCB("approval")
-			cw.cbRuns.Add(1)
+			defer cw.cbEnter(c17CbApproval)()
+			cw.keepMsg(m)
 			cw.lc.ApproveOrDenyWrite(m, model.ErrorType{})
 		})
 		for _, deep := range []bool{false, true} {
@@ -361,6 +515,10 @@ func c17Build(c *rig.Ctx, tag string, state int, nconn int, soak bool) *c17W {
 			cw.appH = append(cw.appH, h)
 			_ = spine.Events.Subscribe(h)
 		}
+		cw.autoVerdicts(cw.lc2, 20*time.Millisecond)
+		// a peer without writer that is subscribed to LoadControl and DeviceDiagnosis [1]: every notify of a local
+		// data update and every tick of the heartbeat stream meets a failing send in this state
+		cw.muteIn(1, false, true, cw.muteSubs)
 	case 3:
 		for s := range cw.conns {
 			if f := cw.rf(s, []uint{1}, 2); f != nil {
@@ -392,7 +550,7 @@ func c17Build(c *rig.Ctx, tag string, state int, nconn int, soak bool) *c17W {
 // that peer one after the other; with announce its detailed discovery reply comes first (the handling of that reply
 // makes the local device subscribe to the peer's node management and request its use cases: two more failing sends,
 // issued from inside Events.Publish). Returns the remote device object.
-func (cw *c17W) muteIn(i int, reconnect, announce bool, msgs ...func(m *c17Mute, send func(cl model.CmdClassifierType, src, dst *model.FeatureAddressType, ack bool, ref *model.MsgCounterType, cmd model.CmdType))) api.DeviceRemoteInterface {
+func (cw *c17W) muteIn(i int, reconnect, announce bool, msgs ...func(m *c17Mute, send c17MuteSend)) api.DeviceRemoteInterface {
 	m := &cw.mutes[i%len(cw.mutes)]
 	m.mu.Lock()
 	defer m.mu.Unlock()
@@ -433,6 +591,18 @@ func (cw *c17W) muteIn(i int, reconnect, announce bool, msgs ...func(m *c17Mute,
 		f(m, send)
 	}
 	return rd
+}
+
+type c17MuteSend = func(cl model.CmdClassifierType, src, dst *model.FeatureAddressType, ack bool, ref *model.MsgCounterType, cmd model.CmdType)
+
+// muteSubs are the subscriptions a peer without writer asks for: LoadControl [1]/1 (notified by every local data
+// update) and DeviceDiagnosis [1]/3 (notified by the heartbeat STREAM of entity [1] on every tick: the stream is the
+// only caller that meets this failing send, and nothing waits for the stream to return). Every such notify fails
+// in the Sender.
+func (cw *c17W) muteSubs(m *c17Mute, send c17MuteSend) {
+	nm := rig.FA(m.addr, []uint{0}, 0)
+	send(model.CmdClassifierTypeCall, nm, rig.LNM, true, nil, model.CmdType{NodeManagementSubscriptionRequestCall: spine.NewNodeManagementSubscriptionRequestCallType(rig.FA(m.addr, []uint{1}, 1), cw.lc.Address(), model.FeatureTypeTypeLoadControl)})
+	send(model.CmdClassifierTypeCall, nm, rig.LNM, true, nil, model.CmdType{NodeManagementSubscriptionRequestCall: spine.NewNodeManagementSubscriptionRequestCallType(rig.FA(m.addr, []uint{1}, 3), cw.dd.Address(), model.FeatureTypeTypeDeviceDiagnosis)})
 }
 
 // muteRequests issues the requests an application (and the stack on its behalf) sends to a peer: each of them fails
@@ -504,7 +674,7 @@ func (cw *c17W) close() {
 // progress must be reported: the parent's quiet-period monitor then takes the goroutine dump that decides
 // whether this is a hang inside the stack's own locks (violation hang@<frame>) or merely inconclusive.
 func c17Stuck(c *rig.Ctx, what string) {
-	fmt.Fprintf(os.Stderr, "\n@@STUCK %s %s case %d: %s did not return within %s; waiting for the parent's goroutine dump\n", c.Prop, c.Part, c.Index, what, c17OpGuard)
+	fmt.Fprintf(os.Stderr, "\n@@STUCK %s %s case %d: %s: not finished within %s; waiting for the parent's goroutine dump\n", c.Prop, c.Part, c.Index, what, c17OpGuard)
 	for {
 		time.Sleep(time.Hour)
 	}
